@@ -175,7 +175,7 @@ def audit_case(item):
     for p, (probs, ne), choices, ndev in explore(run, policy=policy, max_deviations=(1 if cfg.get("start") is not None else 0), max_execs=60):
         out["n"] += 1
         for pr in probs:
-            if "UnmodelledRandomness" in pr and len(out["escapes"]) < 2:
+            if "GlobalRandomnessUsed" in pr and len(out["escapes"]) < 2:
                 out["escapes"].append({"problem": pr, "choices": choices})
     return out
 
